@@ -1,5 +1,5 @@
 (** C17 — One cursor: every reading method consumes the stream strictly line by line.  Pinned statements only. *)
-Require Import CF.Proofs.Tac CF.Model.Records CF.Model.Reader CF.Model.Sections CF.Model.Ops CF.Proofs.OpsFacts.
+Require Import CF.Proofs.Tac CF.Model.Records CF.Model.Reader CF.Model.Sections CF.Model.Ops CF.Proofs.OpsFacts CF.Proofs.ReaderFacts CF.Proofs.ChunkFacts CF.Proofs.ByteFacts.
 
 (** For every history of reader operations (raw reads, parsed reads, lines().next(), sections().next() on a
     continued or fresh iterator) the reads consumed by the operations, in order, followed by what is left, are
@@ -21,3 +21,21 @@ Theorem C17_no_lookahead : forall ln rs sec it' rest,
   exists pre0 rl d ds, rs = pre0 ++ rl :: rest /\ classify rl = RData d /\ dterm d = true /\ sdata sec = ds ++ [d].
 Proof. exact sections_no_lookahead. Qed.
 Print Assumptions C17_no_lookahead.
+
+(** The same at the level of bytes: the raw reads partition the byte string.  The byte counts the reads report ([consumed]: also
+    for a read refused as invalid UTF-8) add up to the length of the input, for every chunking and any number of retried
+    interrupts; and the first k reads consumed exactly the first k raw lines ([chunks b] cuts [b] after every LF), so read k starts
+    at the byte where read k-1 ended - nothing is skipped, nothing is read twice. *)
+Theorem C17_bytes_partition : forall evs, no_fail evs ->
+  sumN (map consumed (raw_reads {| pending := []; future := evs |})) = N.of_nat (length (flat evs)).
+Proof. exact raw_reads_consume_all_schedule. Qed.
+Print Assumptions C17_bytes_partition.
+
+Theorem C17_byte_positions : forall b k,
+  sumN (map consumed (firstn k (raw_reads (src_of_bytes b)))) = N.of_nat (length (concat (firstn k (chunks b)))) /\ concat (chunks b) = b.
+Proof. intros b k. split; [exact (raw_reads_positions b k)|exact (chunks_concat b)]. Qed.
+Print Assumptions C17_byte_positions.
+
+Example C17_bytes_nonvacuous :
+  map consumed (raw_reads {| pending := []; future := [Chunk [52; 13]; Interrupted; Chunk [10; 255; 10; 53]] |}) = [3; 2; 1].
+Proof. vm_compute. reflexivity. Qed.
